@@ -90,20 +90,20 @@ func (c *conn8) alGate() *cl.Gate {
 }
 
 type run8 struct {
-	env   *cl.Env
-	gb    *cl.GateBroker
-	sch   *sched
-	ss    bool
-	ssch  string
+	env  *cl.Env
+	gb   *cl.GateBroker
+	sch  *sched
+	ss   bool
+	ssch string
 	// pushes mode (C11): two more connect-time server-side subscriptions of connection 1, not gated: "b" (not
 	// positioned) and "p" (positioned); ssch is the model's channel "a"
 	pushes bool
 	chB    string
 	chP    string
-	mu    sync.Mutex
-	conns map[int]*conn8
-	byID  map[string]*conn8
-	shut  chan struct{}
+	mu     sync.Mutex
+	conns  map[int]*conn8
+	byID   map[string]*conn8
+	shut   chan struct{}
 }
 
 func (r *run8) byid(id string) *conn8 {
